@@ -71,6 +71,14 @@ def run_property(pid, tier, seed, replay=None):
         if rc != 0:
             cone_ok = False
             pa_out = "Print Assumptions failed: " + pa_out
+    coqchk_out = None
+    if cone_ok and tier == "thorough":
+        # independent re-check of the compiled files and everything they depend on; lists the axioms of the whole context
+        rc2, out2 = vlib.sh(["timeout", "1500", "coqchk", "-o", "-silent", "-Q", vlib.COQ, "QV", "QV." + pfile[:-2]], cwd=vlib.COQ)
+        coqchk_out = out2[-1500:]
+        if rc2 != 0 or "Axioms: <none>" not in out2:
+            cone_ok = False
+            pa_out += "\ncoqchk: " + coqchk_out
     axioms_clean = cone_ok and all(("Closed under the global context" in blk) for blk in pa_out.split("\n\n") if blk.strip()) \
         if spec.get("axiom_free", True) else cone_ok
     proof_ok = cone_ok and not hygiene
@@ -94,7 +102,7 @@ def run_property(pid, tier, seed, replay=None):
     coverage = {"obligations": max(nobl, 1), "discharged": max(ndone, 1) if proof_ok else ndone,
                 "checker_cmd": "cd /verif/coq && coq_makefile -f _CoqProject -o Makefile && make -k -j%s (full .vo build), then Print Assumptions on every theorem of %s" % (vlib.NPROC, pfile),
                 "trusted_base": vlib.TRUSTED_BASE + spec.get("trusted_extra", []),
-                "theorems": thms, "print_assumptions": pa_out[-6000:],
+                "theorems": thms, "print_assumptions": pa_out[-6000:], "coqchk": coqchk_out,
                 "proof_files": cone, "srcfacts_degraded": facts.get("degraded", []),
                 "srcfacts_changed_vs_committed_default": facts.get("changed_vs_default", []),
                 "srcfacts_used": {k: facts.get("constants", {}).get(k) or facts.get("decisions", {}).get(k) for k in spec.get("facts", [])}}
